@@ -367,7 +367,7 @@ fn main() {
             for &path in &PATHS {
                 rep.evaluations += 1;
                 let mut calls = 0u64;
-                let r = catch(|| run_case(&buckets, &obs, path, &mut calls));
+                let r = watchdog::case(|| format!("buckets {:?} observations {:?} via {:?}", fl(&buckets), fl(&obs), path), || catch(|| run_case(&buckets, &obs, path, &mut calls)));
                 rep.transitions += calls;
                 let r = match r {
                     Ok(r) => r,
